@@ -189,6 +189,19 @@ def run(ctx):
                    'the value (a path of 4096 bytes or more is logged short although the configured limit allows it)' % (
                        dn, render(bad[0])[:60] if bad else ''),
                    how='%d %%s conversions, none with a precision' % nconv, nontrivial=False)
+        # a value longer than the limit is logged as its prefix: the two data sources must not produce it with the
+        # all-or-nothing append of the message composer, which refuses a text that does not fit whole
+        for dn in ('snoopy_datasource_cmdline', 'snoopy_datasource_filename'):
+            df = prog.func(dn)
+            if df is None:
+                continue
+            refusing = [c for g_ in common.with_helpers(prog, df) for c in g_.calls()
+                        if c.get('callee') in ('snoopy_util_string_append', 'snoopy_message_append')]
+            chk.ob('S5', 'value-is-cut-not-refused[%s]' % dn, not refusing, (refusing[0] if refusing else df.body).where(), dn,
+                   '%s produces its value with %s, which appends a text whole or not at all: a path or command line longer '
+                   'than the data-source limit is then not logged as a prefix but as nothing (or as an error text)' % (
+                       dn, render(refusing[0])[:60] if refusing else ''),
+                   how='the value is written by truncating writers only', nontrivial=False)
         # ---- S4 ------------------------------------------------------------------------
         CM = prog.func('snoopy_datasource_cmdline')
         if CM is not None:
